@@ -113,25 +113,25 @@ mutual
 end
 
 /-- `env`: identity ↦ `none` (still the raw node) | `some r` (interpreted). -/
-abbrev Env (R : Type) := List (Nat × Option R)
+abbrev SEnv (R : Type) := List (Nat × Option R)
 
 /-- `env[i]`: outer `none` = KeyError. -/
-def envGet {R : Type} : Env R → Nat → Option (Option R)
+def envGet {R : Type} : SEnv R → Nat → Option (Option R)
   | [], _ => none
   | (k, v) :: rest, i => if k = i then some v else envGet rest i
 
 /-- `env[i] = r` on an existing key keeps its position; a new key is appended. -/
-def envSet {R : Type} : Env R → Nat → Option R → Env R
+def envSet {R : Type} : SEnv R → Nat → Option R → SEnv R
   | [], i, r => [(i, r)]
   | (k, v) :: rest, i, r => if k = i then (k, r) :: rest else (k, v) :: envSet rest i r
 
 /-- Interpreted value of a child: `none` if missing or still raw. -/
-def envVal {R : Type} (env : Env R) (i : Nat) : Option R :=
+def envVal {R : Type} (env : SEnv R) (i : Nat) : Option R :=
   match envGet env i with
   | some (some r) => some r
   | _ => none
 
-def lookupAll {L R : Type} (env : Env R) : List (HTree L) → Option (List R)
+def lookupAll {L R : Type} (env : SEnv R) : List (HTree L) → Option (List R)
   | [] => some []
   | k :: ks =>
     match envVal env k.id, lookupAll env ks with
@@ -139,12 +139,12 @@ def lookupAll {L R : Type} (env : Env R) : List (HTree L) → Option (List R)
     | _, _ => none
 
 /-- Body of the `for key, value in env.items()` loop for one node. -/
-def stepNode {L R : Type} (f : L → List R → R) (env : Env R) (n : HTree L) : Option (Env R) :=
+def stepNode {L R : Type} (f : L → List R → R) (env : SEnv R) (n : HTree L) : Option (SEnv R) :=
   match lookupAll env n.kids with
   | some args => some (envSet env n.id (some (f n.label args)))
   | none => none
 
-def stackLoop {L R : Type} (f : L → List R → R) : List (HTree L) → Env R → Option (Env R)
+def stackLoop {L R : Type} (f : L → List R → R) : List (HTree L) → SEnv R → Option (SEnv R)
   | [], env => some env
   | n :: rest, env =>
     match stepNode f env n with
